@@ -22,8 +22,8 @@
  "name": "p1_scan_extent_leaf_lblk_wrap",
  "props": ["C02"],
  "level": "U/iter",
- "tier": "wip",
- "tier_after_hooks": "quick",
+ "tier": "quick",
+ "tier_after_fix": "quick",
  "harness": "h_se_detect",
  "defines": ["SE_WRAP"],
  "replace": ["mark_blocks_used"],
@@ -74,23 +74,19 @@
 */
 /* VERIF-UNIT
 {
- "name": "p1_scan_extent_dir_sound",
+ "name": "p1_scan_extent_dir_sound_B3",
  "props": ["C05", "C02"],
- "level": "U/iter",
- "tier": "wip",
- "tier_after_hooks": "quick",
+ "level": "B(3)",
+ "tier": "quick",
  "harness": "h_se_dir",
  "defines": ["SE_DIR"],
- "loop_contracts": true,
  "replace": ["mark_blocks_used"],
  "includes": ["e2fsck", "lib/support"],
  "sources": ["lib/ext2fs/blknum.c"],
- "unwind": 16,
- "unwindset": {"__CPROVER_contracts_write_set_check_assigns_clause_inclusion.0": 14, "__CPROVER_contracts_write_set_check_assignment.0": 14},
- "unwind_reason": "per-extent loop: one iteration by construction (see p1_scan_extent_leaf_detect); the two directory-block-list loops inside it (hole filling, one entry per block of the extent) are closed by loop contracts given through the named anchors VERIF_INV_PASS1_SCAN_EXTENT_HOLES / _DBLOCKS (hooks-pending/p1h.diff); the global bound serves the DFCC library loops",
+ "unwind": 5,
+ "unwind_reason": "BOUNDED stand-in: extents of at most 3 blocks (the loop that queues one directory-block-list entry per block runs e_len <= 32768 times; a loop contract on it needs a contract on the enclosing per-extent loop as well — DFCC checks the inner loop's assigns against the write set of the enclosing loop, which only exists when that loop carries a contract — and that would move the whole per-extent statement into ghost monitors)",
  "functions": ["e2fsck/pass1.c:scan_extent_node"],
- "assumes": ["NEEDS the hooks in hooks-pending/p1h.diff",
-	     "as p1_scan_extent_leaf_sound for a DIRECTORY inode: healthy leaf extent, written (not UNINIT), no gap in front of it (lblk <= last_block + 1: otherwise PR_1_COLLAPSE_DBLOCK is offered), below the directory size limit (lblk+len <= 2^(21 - log_block_size) unless largedir / i_size_high)",
+ "assumes": ["as p1_scan_extent_leaf_sound for a DIRECTORY inode: healthy leaf extent of 1..3 blocks, written (not UNINIT), no gap in front of it (lblk <= last_block + 1: otherwise PR_1_COLLAPSE_DBLOCK is offered), no hole to fill in the directory block list, below the directory size limit (lblk+len <= 2^(21 - log_block_size) unless largedir / i_size_high)",
 	     "ext2fs_add_dir_block2 is a stub that succeeds and records, for ONE arbitrary offset q < len, how often (pblk+q, lblk+q) was queued, and whether anything that is not a block of this extent (other than a 0 hole filler) was queued",
 	     "statement: in addition to p1_scan_extent_leaf_sound, every block of the extent is queued for pass 2 exactly once with its logical number"],
  "native": false
@@ -126,19 +122,9 @@ struct in_se IN;
 #include "verif_in.h"
 #include "p1_pre.h"
 
-/* ghost registers written by the ext2fs_add_dir_block2 stub (inside the cut loops of the directory unit) */
+/* ghost registers written by the ext2fs_add_dir_block2 stub */
 unsigned int se_adb, se_adb_q;
 unsigned char se_adb_bad;
-
-#define VERIF_INV_PASS1_SCAN_EXTENT_HOLES \
-	__CPROVER_assigns(pb->last_db_block, pctx->errcode, pctx->blk, pctx->num, se_adb, se_adb_q, se_adb_bad) \
-	__CPROVER_loop_invariant(se_adb_q == __CPROVER_loop_entry(se_adb_q) && se_adb_bad == 0) \
-	__CPROVER_loop_invariant(pb->last_db_block < 0x7fffffffffffffffLL)
-#define VERIF_INV_PASS1_SCAN_EXTENT_DBLOCKS \
-	__CPROVER_assigns(i, pctx->errcode, pctx->blk, pctx->num, se_adb, se_adb_q, se_adb_bad) \
-	__CPROVER_loop_invariant(i <= extent.e_len) \
-	__CPROVER_loop_invariant(se_adb_q == (IN.q < i ? 1u : 0u) && se_adb_bad == 0) \
-	__CPROVER_decreases(extent.e_len - i)
 
 #include "p1_common.h"
 
@@ -406,7 +392,8 @@ void h_se_sound(void)
 	REACH("end");
 }
 
-/* C05 + C02, directory */
+
+/* C05 + C02, directory (bounded) */
 void h_se_dir(void)
 {
 	struct se_world w;
@@ -417,6 +404,7 @@ void h_se_dir(void)
 	ASSUME(!IN.err_info && !IN.err_get1 && !IN.csum_pending);
 	ASSUME(IN.err_get2 <= 2);
 	ASSUME(SE_FORMAT_OK());
+	ASSUME(IN.len <= 3);							/* the bound */
 	last = IN.lblk + IN.len - 1;
 	ASSUME(IN.end_block == 0 || last <= IN.end_block);
 	ASSUME(!IN.uninit);
@@ -424,6 +412,7 @@ void h_se_dir(void)
 	ASSUME(IN.i_size_high || (IN.incompat & EXT4_FEATURE_INCOMPAT_LARGEDIR) ||
 	       IN.lblk + IN.len <= (1ULL << (21 - IN.log_block_size)));
 	ASSUME(IN.q < IN.len);
+	ASSUME(IN.last_db_block + 1 >= (long long) IN.lblk);		/* no hole to fill in the directory block list */
 
 	scan_extent_node(w.ctx, &w.pctx, &w.pb, IN.start_block, IN.end_block, IN.eof_block,
 			 (ext2_extent_handle_t) &se_handle_tag, 1);
@@ -433,7 +422,7 @@ void h_se_dir(void)
 	CHECK(se_mbu_calls == 1 && se_mbu_block == IN.pblk && se_mbu_num == IN.len, "its blocks are recorded exactly once");
 	CHECK(w.pb.num_blocks == IN.num_blocks + IN.len, "and counted");
 	CHECK(se_adb_q == 1, "every block of the extent is queued for pass 2 exactly once, under its logical block number");
-	CHECK(!se_adb_bad, "nothing but the extent's blocks (and 0 hole fillers) is queued");
+	CHECK(!se_adb_bad && se_adb == IN.len, "nothing but the extent's blocks is queued");
 	CHECK(!se_stray, "no bitmap touched directly");
 	REACH("end");
 }
